@@ -80,7 +80,7 @@ def run(tier, seed, rep):
         # (b) the renamed identifier is used identically by every derive; explicit names are never re-cased
         cands = []
         for st in STYLES + ALIASES:
-            for chunk in (DICT[:15], DICT[15:-7], DICT[-7:]):
+            for ci, chunk in enumerate((DICT[:15], DICT[15:-7], DICT[-7:])):
                 vs = [variant(i, rng.choice(["unit", "unit", "tuple", "named"])) for i in chunk]
                 for v in vs:
                     if v["kind"] != "unit":
@@ -88,8 +88,11 @@ def run(tier, seed, rep):
                         v["nf"] = 1
                 vs += [variant("Explicit", ser=["KeepMe_AsIs", "k"]), variant("Ts", ts="Also Kept"),
                        variant("Both", ser=["ser_Only"], ts="To_String"),
-                       variant("SameAsIdent", ser=["SameAsIdent"]), variant("TsSameAsIdent", ts="TsSameAsIdent")]
-                cands.append(enum(did, vs, style=st, cis=bool(did % 2), aci=bool((did // 2) % 2)))
+                       variant("SameAsIdent", ser=["SameAsIdent"]), variant("TsSameAsIdent", ts="TsSameAsIdent"),
+                       ] + ([variant("EmptyOnly", ser=[""])] if ci == 1 else [])      # an empty explicit name is a name (the last chunk holds an identifier whose styled form is empty)
+                # a prefix is written in front of the name as given: the style renames the identifier, never the prefix
+                cands.append(enum(did, vs, style=st, cis=bool(did % 2), aci=bool((did // 2) % 2),
+                                  prefix=[None, "Pre.Fix/", None, "onX "][did % 4]))
                 did += 1
         facts = pipe.domain_pass(cands, PROP)
         defs = [E for E in cands if facts[E["id"]]["wf"] and facts[E["id"]]["no"] and facts[E["id"]]["wfn"]]
